@@ -767,6 +767,254 @@ func c14cfgCorpus() []*c14WC {
 }
 
 // ---------------------------------------------------------------------------------
+// (A2) the FRAMING of the handshake: which reader the relay uses for the client's ACT and the
+// server's CFG, and which terminator it puts on every line it sends itself, as a function of
+// the Windows-server fact, of the ACT (newline, tunnel) and of what the relay remembers from
+// earlier transfers (clientIsWindows).  fn "handshake2" vs RelayNeg.rn_handshake2.
+
+type c14fhIn struct {
+	mode    int
+	width   int32
+	win     bool
+	cliWin0 bool
+	actWin  bool   // the ACT line ends with "!\n"
+	act     *c14WA // nil: a line whose payload is not an ACT
+	cfgWin  bool
+	cfg     *c14WC // nil: cfgBad or none
+	cfgBad  bool
+	desc    string
+}
+
+func c14nl(win bool) string {
+	if win {
+		return "!\n"
+	}
+	return "\n"
+}
+
+func c14terms(lines [][]byte) string {
+	var b strings.Builder
+	for _, l := range lines {
+		switch {
+		case bytes.HasSuffix(l, []byte("!\n")):
+			b.WriteByte('W')
+		case bytes.HasSuffix(l, []byte("\n")):
+			b.WriteByte('U')
+		default:
+			b.WriteByte('?')
+		}
+	}
+	return b.String()
+}
+
+// is the CFG line supplied?  Only when the handshake will get as far as reading it: an
+// unread parked line is flushed to the client afterwards (C13), which is not this group's topic
+func (in *c14fhIn) cfgSupplied() bool {
+	return in.act != nil && c14val(in.act.confirm, false) && in.actWin == in.win && (in.cfg != nil || in.cfgBad)
+}
+
+func (in *c14fhIn) args() []string {
+	b := func(x bool) string {
+		if x {
+			return "1"
+		}
+		return "0"
+	}
+	a, g := "bad", "none"
+	if in.act != nil {
+		a = in.act.canon()
+	}
+	if in.cfgSupplied() {
+		if in.cfg != nil {
+			g = in.cfg.canon()
+		} else {
+			g = "bad"
+		}
+	}
+	return []string{strconv.Itoa(in.mode), strconv.Itoa(int(in.width)), b(in.win), b(in.cliWin0), b(in.actWin), a, b(in.cfgWin), g}
+}
+
+// the client as its ACT describes it, if the ACT is one a trzsz client can send: it frames for
+// Windows ("newline":"!\n") only without a tunnel, and it does so whenever the server is Windows
+func (in *c14fhIn) honestClient() (windows bool, ok bool) {
+	if in.act == nil || in.actWin != in.win {
+		return false, false
+	}
+	nl := "\n"
+	if in.act.newline != nil {
+		nl = *in.act.newline
+	}
+	tunnel := c14val(in.act.tunnel, false)
+	windows = nl == "!\n"
+	if nl != "\n" && nl != "!\n" || windows && tunnel || in.win && !tunnel && !windows {
+		return false, false
+	}
+	return windows, true
+}
+
+func (in *c14fhIn) clientKind(windows bool) string {
+	k := "unix-client"
+	if windows {
+		k = "windows-client"
+	}
+	if in.win {
+		k += "/windows-server"
+	}
+	if in.act != nil && c14val(in.act.tunnel, false) {
+		k += "/tunnel"
+	}
+	if in.mode == 1 {
+		k += "/relay-in-tmux"
+	}
+	return k
+}
+
+// DIRECT ORACLES on the framing, independent of the model
+func (c *ctx) c14oracleFraming(in *c14fhIn, kind string, toClient [][]byte, how string) {
+	windows, ok := in.honestClient()
+	if !ok {
+		return
+	}
+	ck := in.clientKind(windows)
+	detail := how + " " + in.desc + " args=" + strings.Join(in.args(), " ") + " to-client=" + hxs(toClient)
+	want := c14nl(windows)
+	for _, l := range toClient {
+		if !bytes.HasSuffix(l, []byte(want)) || want == "\n" && bytes.HasSuffix(l, []byte("!\n")) {
+			t, _, _ := c14decodeLine(l)
+			c.violate("relay-client-terminator:"+t+":"+ck, "a line the relay itself sent to the client does not end with the terminator that client reads by "+
+				"(it announced newline "+strconv.Quote(want)+")", detail)
+		}
+	}
+	// the server is honest too: it frames its CFG with the newline of the ACT it received
+	if c14val(in.act.confirm, false) && in.cfg != nil && in.cfgSupplied() && in.cfgWin == windows &&
+		(in.cfg.escape == nil || *in.cfg.escape != "o") {
+		if kind != "done" {
+			c.violate("relay-handshake-failed:"+ck, "client and server would have completed this handshake directly; through the relay it ended as "+kind, detail)
+		}
+		c.count("framing:honest:" + ck)
+	}
+}
+
+func (c *ctx) c14runFramed(in *c14fhIn) (string, string, [][]byte) {
+	var fc, fs [][]byte
+	if in.act != nil {
+		fc = [][]byte{c14line("ACT", in.act.json(nil, false, nil), c14nl(in.actWin))}
+	} else {
+		fc = [][]byte{c14line("CFG", []byte(`{}`), c14nl(in.actWin))}
+	}
+	if in.cfgSupplied() {
+		if in.cfg != nil {
+			fs = [][]byte{c14line("CFG", in.cfg.json(nil, false, nil), c14nl(in.cfgWin))}
+		} else {
+			fs = [][]byte{c14line("SUCC", []byte(`1`), c14nl(in.cfgWin))}
+		}
+	}
+	ts, tc, st, cw, hung := trzsz.VerifRelayHandshake2(in.mode, in.width, in.win, in.cliWin0, fc, fs, 700*time.Millisecond)
+	kind, _, _, canon := c14classify(ts, tc, st)
+	if hung {
+		kind = "hung" + strconv.Itoa(len(ts))
+		canon = kind + canon[strings.Index(canon, ":"):]
+	}
+	b := "0"
+	if cw {
+		b = "1"
+	}
+	return kind, canon + ":S=" + c14terms(ts) + ":C=" + c14terms(tc) + ":w" + b, tc
+}
+
+func (c *ctx) c14framedHandshakes() {
+	t, f := true, false
+	var ins []*c14fhIn
+	// every client a trzsz client can be (on Windows or not, Windows server or not, tunnel or not) x
+	// every relay (outside tmux, tmux normal, tmux control) x what the relay remembers x the three
+	// outcomes (confirmed / refused / server's line not a CFG), with honest framing of both ends
+	for _, win := range []bool{false, true} {
+		for _, envWin := range []bool{false, true} {
+			for _, tun := range []bool{false, true} {
+				cliWindows := !tun && (envWin || win)
+				for mode := 0; mode < 3; mode++ {
+					for _, cw0 := range []bool{false, true} {
+						for out := 0; out < 3; out++ {
+							act := &c14WA{lang: c14s("go"), version: c14s("1.1.8"), confirm: c14b(out != 1), newline: c14s(c14nl(cliWindows)),
+								protocol: c14i(4), binary: c14b(!cliWindows), dir: &t, tunnel: c14b(tun), fork: c14b(tun)}
+							in := &c14fhIn{mode: mode, width: []int32{-1, 132}[mode&1], win: win, cliWin0: cw0, actWin: win, act: act, cfgWin: cliWindows,
+								desc: "go-client"}
+							if out == 2 {
+								in.cfgBad = true
+							} else {
+								in.cfg = &c14WC{bufsize: c14i(10 << 20), timeout: c14i(20), protocol: c14i(4), overwrite: &t, binary: c14b(tun)}
+							}
+							ins = append(ins, in)
+						}
+						// the ACT itself is not decodable: the relay frames its FAIL by what it remembers
+						ins = append(ins, &c14fhIn{mode: mode, width: -1, win: win, cliWin0: cw0, actWin: win, desc: "undecodable-act"})
+					}
+				}
+			}
+		}
+	}
+	// framings that do NOT match (a reader that garbles the line, or never finds its terminator)
+	for _, win := range []bool{false, true} {
+		for _, cliNL := range []bool{false, true} {
+			for _, actWin := range []bool{false, true} {
+				for _, cfgWin := range []bool{false, true} {
+					for _, tun := range []bool{false, true} {
+						act := &c14WA{lang: c14s("go"), confirm: &t, newline: c14s(c14nl(cliNL)), protocol: c14i(4), tunnel: c14b(tun)}
+						ins = append(ins, &c14fhIn{mode: 0, width: -1, win: win, cliWin0: c.rng.Intn(2) == 0, actWin: actWin, act: act, cfgWin: cfgWin,
+							cfg: &c14WC{bufsize: c14i(1024), timeout: c14i(5)}, desc: "any-framing"})
+					}
+				}
+			}
+		}
+	}
+	// random ACT x CFG objects with random framings
+	for i, n := 0, c.pick(400, 6000); i < n; i++ {
+		in := &c14fhIn{mode: c.rng.Intn(3), width: []int32{-1, 0, 80}[c.rng.Intn(3)], win: c.rng.Intn(3) == 0, cliWin0: c.rng.Intn(2) == 0, desc: "random"}
+		in.act = c14randWA(c.rng)
+		if c.rng.Intn(4) > 0 {
+			in.act.confirm = &t
+		}
+		if c.rng.Intn(3) > 0 {
+			in.act.newline = c14s(c14nl(c.rng.Intn(2) == 0))
+		}
+		if c.rng.Intn(20) == 0 {
+			in.act = nil
+		}
+		in.actWin = in.win
+		if c.rng.Intn(12) == 0 {
+			in.actWin = !in.win
+		}
+		in.cfg = c14randWC(c.rng, true)
+		if c.rng.Intn(15) == 0 {
+			in.cfg, in.cfgBad = nil, true
+		}
+		in.cfgWin = in.act != nil && in.act.newline != nil && *in.act.newline == "!\n"
+		if c.rng.Intn(12) == 0 {
+			in.cfgWin = !in.cfgWin
+		}
+		ins = append(ins, in)
+	}
+	_ = f
+	type res struct {
+		kind, canon string
+		tc          [][]byte
+	}
+	out := make([]res, len(ins))
+	parallelDo(len(ins), 16, func(i int) {
+		k, cn, tc := c.c14runFramed(ins[i])
+		out[i] = res{k, cn, tc}
+	})
+	for i, in := range ins {
+		c.c14oracleFraming(in, out[i].kind, out[i].tc, "export-handshake2")
+		c.count("hs2:" + out[i].kind)
+		if in.act == nil && in.win == false && in.cliWin0 == false {
+			c.count("hs2:undecodable-act-fresh-relay-unix-terminator") // C14_client_terminator_any_act_refuted
+		}
+		c.emit(true, "handshake2", out[i].canon, in.args()...)
+	}
+}
+
+// ---------------------------------------------------------------------------------
 // (B) the real relay over pipes
 
 type c14Rig struct {
@@ -1795,6 +2043,7 @@ func genRelayNeg(c *ctx) {
 		c.emit(true, "client_decode_escape", res, map[bool]string{true: "o", false: "tee" + "ee" + "7e31"}[js == "{}"])
 	}
 	c.c14exportHandshakes()
+	c.c14framedHandshakes()
 	c.c14pipeHandshakes()
 	c.c14sequences()
 	c.c14chains()
